@@ -45,6 +45,18 @@ class CaseEval:
     def pos(self, c=0):
         return c if self.zero else ('i', c)
 
+    def is_buffer(self, v):
+        return buffer_of(self.prog, v) == ('buffer',)
+
+    def apply_closure(self, cfn, clos_val, argvals):
+        """value of closure cfn (built as clos_val in this function) applied to already evaluated arguments"""
+        sub = ClosureEval(self, cfn, clos_val, argvals)
+        results, undecided = walk_plain(sub, cfn.body)
+        results = [r for r in results if r != 'UNREACHABLE']
+        if undecided or not results or any(r is None for r in results) or any(r != results[0] for r in results):
+            return None
+        return results[0]
+
     def ev(self, v, depth=0):
         v = strip(v) if v is not None and v.kind != 'cast' else v
         if v is None or depth > 20:
@@ -71,6 +83,8 @@ class CaseEval:
                 return 0 if self.ok else 1
             if isinstance(x, tuple) and x and x[0] == 'option':
                 return 1 if x[1] is not None else 0
+            if isinstance(x, tuple) and x and x[0] == 'res':
+                return 0 if x[1] else 1
             return None
         if k == 'load':
             root = strip(v.args[0])
@@ -91,6 +105,11 @@ class CaseEval:
                 return ('elem', rv[1], rv[2] + tuple(f for f in flds))
             if isinstance(rv, tuple) and rv and rv[0] == 'option' and 'as:Some' in path:
                 return rv[1]
+            if isinstance(rv, tuple) and rv and rv[0] == 'res':
+                if 'as:Ok' in path:
+                    return rv[2] if rv[1] else 'UNREACHABLE'
+                if 'as:Err' in path:
+                    return rv[2] if not rv[1] else 'UNREACHABLE'
             return None
         if k == 'ref':
             if not v.fields():
@@ -122,18 +141,49 @@ class CaseEval:
                     if name == 'unwrap_or':
                         return self.ev(v.args[1], depth + 1)
                     return 0
+            if name in ('map_or', 'map', 'and_then', 'map_or_else', 'unwrap_or', 'unwrap_or_else', 'or', 'unwrap_or_default') and v.args:
+                x = self.ev(v.args[0], depth + 1)
+                if isinstance(x, tuple) and x and x[0] == 'option':
+                    cl = prog.closures_passed(v)
+                    if name == 'unwrap_or':
+                        return x[1] if x[1] is not None else self.ev(v.args[1], depth + 1)
+                    if name == 'or':
+                        return x if x[1] is not None else self.ev(v.args[1], depth + 1)
+                    if name == 'unwrap_or_default':
+                        return x[1] if x[1] is not None else 0
+                    if name == 'unwrap_or_else':
+                        if x[1] is not None:
+                            return x[1]
+                        return self.apply_closure(cl[0], v.args[1], []) if len(cl) == 1 else None
+                    if name == 'map_or':
+                        if x[1] is None:
+                            return self.ev(v.args[1], depth + 1)
+                        return self.apply_closure(cl[0], v.args[2], [x[1]]) if len(cl) == 1 and len(v.args) == 3 else None
+                    if name == 'map':
+                        if x[1] is None:
+                            return ('option', None)
+                        r = self.apply_closure(cl[0], v.args[1], [x[1]]) if len(cl) == 1 else None
+                        return ('option', r) if r is not None else None
+                    if name == 'and_then':
+                        if x[1] is None:
+                            return ('option', None)
+                        return self.apply_closure(cl[0], v.args[1], [x[1]]) if len(cl) == 1 else None
+                    if name == 'map_or_else':
+                        if len(cl) != 2 or len(v.args) != 3:
+                            return None
+                        return self.apply_closure(cl[0], v.args[1], []) if x[1] is None else self.apply_closure(cl[1], v.args[2], [x[1]])
             if name in ('ok', 'err') and v.args and self.ev(v.args[0], depth + 1) == ('result',):
                 if (name == 'ok') == self.ok:
                     return ('option', self.pos(0))
                 return ('option', None)
             if name in ('is_ok', 'is_err') and v.args and self.ev(v.args[0], depth + 1) == ('result',):
                 return self.ok if name == 'is_ok' else (not self.ok)
-            if name in ('get_unchecked', 'get_unchecked_mut', 'index', 'index_mut') and len(v.args) == 2 and buffer_of(prog, v.args[0]) == ('buffer',):
+            if name in ('get_unchecked', 'get_unchecked_mut', 'index', 'index_mut') and len(v.args) == 2 and self.is_buffer(v.args[0]):
                 p = self.ev(v.args[1], depth + 1)
                 if p is None:
                     return None
                 return ('elem', p, ())
-            if name in ('get', 'get_mut') and len(v.args) == 2 and buffer_of(prog, v.args[0]) == ('buffer',):
+            if name in ('get', 'get_mut') and len(v.args) == 2 and self.is_buffer(v.args[0]):
                 p = self.ev(v.args[1], depth + 1)
                 return ('option', ('elem', p, ())) if p is not None else None
             if name in ('checked_sub',) and len(v.args) == 2:
@@ -150,7 +200,7 @@ class CaseEval:
                 return r
             if name in ('clone', 'deref', 'borrow', 'as_ref', 'into', 'from', 'try_into', 'unwrap') and v.args:
                 return self.ev(v.args[-1] if name == 'from' else v.args[0], depth + 1)
-            if name == 'len' and v.args and buffer_of(prog, v.args[0]) == ('buffer',):
+            if name == 'len' and v.args and self.is_buffer(v.args[0]):
                 return ('len',)
             return None
         if k == 'agg':
@@ -161,6 +211,8 @@ class CaseEval:
                     return ('option', self.ev(v.args[0], depth + 1))
                 if vn == 'None':
                     return ('option', None)
+                if vn in ('Ok', 'Err') and len(v.args) == 1:
+                    return ('res', vn == 'Ok', self.ev(v.args[0], depth + 1))     # a search outcome re-tagged by hand
             return None
         if k == 'phi':
             # resolved along the edges walked so far (the walk is deterministic under one search outcome)
@@ -232,6 +284,116 @@ class CaseEval:
                 flip = {'Gt': 'Lt', 'Ge': 'Le', 'Lt': 'Gt', 'Le': 'Ge', 'Eq': 'Eq', 'Ne': 'Ne'}[op]
                 return self.arith(flip, y, x)
         return None
+
+
+class ClosureEval(CaseEval):
+    """evaluation inside a closure: parameters are bound to the argument values, captured variables are evaluated in the
+    defining function"""
+
+    def __init__(self, parent, cfn, clos_val, argvals):
+        CaseEval.__init__(self, parent.prog, cfn, parent.search, parent.case)
+        self.parent = parent
+        self.clos = strip(clos_val)
+        while self.clos is not None and self.clos.kind == 'ref' and not self.clos.fields():
+            self.clos = strip(self.clos.args[0])
+        self.argvals = argvals
+
+    def captured(self, v):
+        """the defining function's Val for a load of (*_1).upvarN, or None"""
+        v = strip(v)
+        while v is not None and v.kind in ('load', 'ref'):
+            root = strip(v.args[0])
+            flds = v.fields()
+            if root.kind == 'param' and root.args[0] == 1 and flds and flds[0].startswith('upvar'):
+                n = int(flds[0][5:])
+                if self.clos is not None and self.clos.kind == 'agg' and n < len(self.clos.args):
+                    return self.clos.args[n], flds[1:]
+                return None
+            if flds:
+                return None
+            v = root
+        return None
+
+    def is_buffer(self, v):
+        v = strip(v)
+        seen = 0
+        while v is not None and v.kind == 'call' and v.callee_name() in ('deref', 'deref_mut', 'as_slice', 'as_mut_slice') and v.args and seen < 4:
+            v = strip(v.args[0])
+            seen += 1
+        if v is None or v.kind not in ('load', 'ref'):
+            return False
+        flds = v.fields()
+        if not flds or flds[-1] != 'buffer':
+            return False
+        inner = strip(v.args[0])
+        # self captured by reference: (*(*_1).upvarN).buffer
+        x = v
+        for _ in range(4):
+            cap = self.captured(x)
+            if cap is not None:
+                pv = strip(cap[0])
+                while pv.kind == 'ref' and not pv.fields():
+                    pv = strip(pv.args[0])
+                return pv.kind == 'param' and pv.args[0] == 1
+            if x.kind in ('load', 'ref'):
+                x = strip(x.args[0])
+            else:
+                break
+        return False
+
+    def _ev(self, v, depth):
+        if v.kind == 'param':
+            k = v.args[0]
+            if k >= 2 and k - 2 < len(self.argvals):
+                return self.argvals[k - 2]
+            return None
+        if v.kind in ('load', 'ref'):
+            cap = self.captured(v)
+            if cap is not None and not cap[1]:
+                return self.parent.ev(cap[0], depth + 1)
+        return CaseEval._ev(self, v, depth)
+
+
+def walk_plain(ev, b):
+    """follow a (closure) body from its entry, deciding every switch the evaluator can decide"""
+    from evalrel import resolve_phi
+    blocks, edges = set(), set()
+    ev.edges = edges
+    stack = [0]
+    undecided = []
+    while stack:
+        x = stack.pop()
+        if x in blocks:
+            continue
+        blocks.add(x)
+        succs = list(b.cfg.succ[x])
+        t = b.mir['blocks'][x]['term']
+        if t['k'] == 'switch' and x in b.switch_discr:
+            val = ev.ev(b.switch_discr[x])
+            if val is not None and val != 'UNREACHABLE' and not isinstance(val, tuple):
+                iv = int(val) if isinstance(val, bool) else val
+                chosen = t['otherwise']
+                for tv, tb in t['targets']:
+                    if tv == iv:
+                        chosen = tb
+                succs = [chosen]
+            else:
+                ret_succs = [s2 for s2 in succs if s2 in b.cfg.can_return]
+                if len(ret_succs) < len(succs):
+                    succs = ret_succs
+                else:
+                    undecided.append(x)
+        if t['k'] == 'assert':
+            succs = [t['target']]
+        for s2 in succs:
+            edges.add((x, s2))
+            stack.append(s2)
+    results = []
+    for rb in b.cfg.returns:
+        if rb in blocks:
+            for rv in resolve_phi(b.ret_val[rb], edges, {}):
+                results.append(ev.ev(rv))
+    return results, undecided
 
 
 def identity_closure(cl):
